@@ -1325,3 +1325,99 @@ func ruleApiHoles(c *Ctx) {
 		c.check(found && okc, R, "ForEach:array-length-read-on-every-step", p.pos(fn.Pos()), "the loop over the array part evaluates len(array) in the loop", "LTable.ForEach walks a snapshot of the array part (range): when the callback removes an element the loop still visits the vacated slots — a stale value for a key the table no longer has, or an untyped Go nil")
 	}
 }
+
+// ruleToNumberBase: F85. tonumber(s, 10) is the standard conversion (same reader as without a base);
+// a base outside 2..36 is an argument error; hexadecimal numerals are not cut at 64 bits by a
+// fixed-width integer parser (0x10000000000000000 is 2^64 for the lexer, tonumber and coercion alike).
+func ruleToNumberBase(c *Ctx) {
+	const R = "R16-onereader"
+	p := c.P
+	fn := c.need(R, "lua", "baseToNumber")
+	pn := c.need(R, "lua", "parseNumber")
+	if fn == nil || pn == nil {
+		return
+	}
+	g := p.G(fn)
+	get := p.Fn("lua", "(*LState).Get")
+	optInt := p.Fn("lua", "(*LState).OptInt")
+	argErr := p.Fn("lua", "(*LState).ArgError")
+	// (1) the reader is chosen by the value of the base, not by the presence of the argument
+	okc := len(callsTo(fn, pn)) > 0
+	for _, cl := range callsTo(fn, pn) {
+		for _, cd := range g.CondsAtInstr(cl) {
+			for _, gc := range callsTo(fn, get) {
+				if dependsOnValue(cd.V, gc, 0) {
+					okc = false
+				}
+			}
+		}
+	}
+	c.Sites++
+	c.check(okc, R, "baseToNumber:base-10-is-the-standard-conversion", p.pos(fn.Pos()), "parseNumber is selected by the value of the base", "tonumber selects the shared numeral reader by the absence of its second argument: tonumber('1e2', 10) and tonumber('0x10', 10) are nil although base 10 is the standard conversion")
+	// (2) base range
+	lo, hi := false, false
+	for _, oc := range callsTo(fn, optInt) {
+		for _, r := range *oc.Referrers() {
+			b, ok := r.(*ssa.BinOp)
+			if !ok || b.X != ssa.Value(oc) {
+				continue
+			}
+			k, isK := constInt(b.Y)
+			if !isK {
+				continue
+			}
+			for _, r2 := range *b.Referrers() {
+				iff, ok := r2.(*ssa.If)
+				if !ok {
+					continue
+				}
+				raises := func(blk *ssa.BasicBlock) bool {
+					for _, in := range blk.Instrs {
+						if isCallTo(in, argErr) {
+							return true
+						}
+					}
+					return false
+				}
+				t, f := iff.Block().Succs[0], iff.Block().Succs[1]
+				switch {
+				case (b.Op == token.LSS && k == 2 || b.Op == token.LEQ && k == 1) && raises(t),
+					(b.Op == token.GEQ && k == 2 || b.Op == token.GTR && k == 1) && raises(f):
+					lo = true
+				case (b.Op == token.GTR && k == 36 || b.Op == token.GEQ && k == 37) && raises(t),
+					(b.Op == token.LEQ && k == 36 || b.Op == token.LSS && k == 37) && raises(f):
+					hi = true
+				}
+			}
+		}
+	}
+	c.Sites++
+	c.check(lo && hi, R, "baseToNumber:base-in-2..36-or-argument-error", p.pos(fn.Pos()), "a base below 2 or above 36 raises an argument error", "tonumber does not reject a base outside 2..36: tonumber('10', 99) quietly answers nil (or a value in a numeral system the manual does not define) instead of 'base out of range'")
+	// (3) no fixed-width integer reader on the numeral path
+	var bad ssa.Instruction
+	seen := map[*ssa.Function]bool{}
+	var walk func(f *ssa.Function, d int)
+	walk = func(f *ssa.Function, d int) {
+		if seen[f] || d > 3 || f.Blocks == nil {
+			return
+		}
+		seen[f] = true
+		allInstrs(f, func(in ssa.Instruction) {
+			if pk, n, ok := stdCall(in); ok && pk == "strconv" && (n == "ParseUint" || n == "ParseInt" || n == "Atoi") {
+				if bad == nil {
+					bad = in
+				}
+			}
+			if sc := staticCallee(in); sc != nil && sc.Pkg != nil && sc.Pkg.Pkg.Path() == luaPath {
+				walk(sc, d+1)
+			}
+		})
+	}
+	walk(pn, 0)
+	pos := p.pos(pn.Pos())
+	if bad != nil {
+		pos = p.ipos(bad)
+	}
+	c.Sites++
+	c.check(bad == nil, R, "parseNumber:numerals-not-cut-at-64-bits", pos, "the numeral reader uses no fixed-width integer parser", "parseNumber converts with a fixed-width integer parser (strconv.ParseUint/ParseInt): a hexadecimal numeral of more than 16 digits (0x10000000000000000) is rejected by the lexer, tonumber and coercion instead of denoting 2^64")
+}
